@@ -98,6 +98,18 @@ CLAIMS = {
         'file order preserved end to end; duplicates and mixed catalogs raise; the filter-path rename and the final rename have the same guard (cleaning files loaded and not passthrough); empty results are safe (cumsum).',
    note='Not decided: equality of row values with masking an unfiltered load (follows from the bookkeeping plus astropy semantics), ndarray.resize.',
    design_ref='DESIGN.md section 4, C03'),
+ 'C09': dict(
+   technique='static analysis: re-discovered bijection across count pass / prefix sums / allocations / fill pass / dict assembly (set and map comparisons), factor-structure and suffix-discipline rules on the marker chain, polynomial normal forms of the fill formulas, alpha-equivalence of sibling blocks',
+   text='Decides the host-attachment and slice-stacking bookkeeping of gen_cent / gen_sats / gen_gals: one consistent mapping tracer<->keep code<->counter<->prefix column<->cursor<->arrays<->dict; markers stacked LRG, ELG, QSO with own-tracer parameters times ic times multiplicity/weight and an if/elif chain on the stored random; '
+        'host arrays indexed by the host row only and tracer arrays by their cursor only; component-wise position/velocity-bias formulas, host mass/id, box-observer RSD with the [-L/2,L/2) wrap, centrals-then-satellites assembly and Ncent.',
+   note='Not decided: the occupation formulas against the literature, slice end-points at exact equality, light-cone RSD geometry, velocity statistics.',
+   design_ref='DESIGN.md section 4, C09'),
+ 'C10': dict(
+   technique='static analysis: ownership classification of stores under prange, block-table / prefix-sum idiom rules, count-fill agreement (exactly-once increments per branch), purity (call and thread-id reachability), index-map agreement of the serial and parallel concatenate paths',
+   text='Decides thread-count independence structurally: nothing shared under prange; count and fill pass iterate identical blocks from rint(linspace(0,H,T+1)) (tiles [0,H) for every T incl. T>H and H=0); cursors are prefix sums of the per-thread counts; each branch increments its counter / cursor exactly once; '
+        'no randomness, time or thread id in row values; fast_concatenate has one index map on both paths, tiling block tables and a total dispatch of thread ids.',
+   note='Assumed: floor(T*N1/(N1+N2)) <= T-1 for N2>0 (real arithmetic). Bitwise float equality under fastmath is argued from purity (no cross-row arithmetic), not separately decided.',
+   design_ref='DESIGN.md section 4, C10'),
 }
 _NB = 'rule family not built yet in this session (claimed only once its checker exists; see DESIGN.md section 4)'
 NOT_APPLICABLE = {f'C{n:02d}': _NB for n in range(1, 21) if f'C{n:02d}' not in CLAIMS}
